@@ -14,7 +14,8 @@ ERRMAP = [
     ("negative start time", 1), ("negative length", 2), ("starts early", 3), ("ends late", 4),
     ("Need at least one chunk", 20), ("different data types", 21), ("different run ids", 22),
     ("overlapping or out-of-order", 23), ("Target size is too small", 30), ("infinite loop", 31),
-    ("argmin of an empty", 32),
+    ("argmin of an empty", 32), ("at least one chunk to merge", 40), ("different data kinds", 41),
+    ("different run_ids", 42), ("different number of items", 43), ("different time ranges", 44),
 ]
 
 
@@ -558,7 +559,98 @@ def unit_continuity(ctx):
               lambda c: {"stream": c}, lambda c, o: o.split()[0])
 
 
-UNITS = {"split_array": unit_split_array, "chunk_split": unit_chunk_split, "concatenate": unit_concat,
+# ------------------------------------------------------------------------------------------
+# Chunk.merge (same-kind, column-wise)
+# ------------------------------------------------------------------------------------------
+
+def fname(fid):
+    return {1: "time", 2: "endtime"}.get(fid, "f%d" % fid)
+
+
+def real_kchunk(k):
+    names = [fid for fid, _ in k["cols"]]
+    dt = np.dtype([(fname(f), np.int64) for f in names])
+    a = np.zeros(k["len"], dtype=dt)
+    for fid, col in k["cols"]:
+        a[fname(fid)] = col
+    return strax.Chunk(start=k["s"], end=k["e"], data=a, dtype=dt, data_type="dt%03d" % k["dt"],
+                       data_kind="k%d" % k["kind"], run_id=str(k["run"]))
+
+
+def enc_kchunk(k):
+    out = [k["s"], k["e"], k["len"], k["kind"], k["run"], k["dt"], len(k["cols"])]
+    for fid, col in k["cols"]:
+        out += [fid, len(col)] + list(col)
+    return " ".join(str(int(x)) for x in out)
+
+
+def unit_merge(ctx):
+    cases = []
+    for _ in range(4000 if ctx.thorough else 1200):
+        k = ctx.rng.randint(2, 4)
+        n = ctx.rng.randint(0, 4)
+        t = sorted(ctx.rng.randint(0, 20) for _ in range(n))
+        e = [x + ctx.rng.randint(0, 3) for x in t]
+        s, end = 0, 30
+        dts = ctx.rng.sample(range(1, 40), k)
+        cs = []
+        for j in range(k):
+            extra = ctx.rng.sample([10, 11, 12, 13], ctx.rng.randint(0, 2))
+            cols = [(1, list(t)), (2, list(e))]
+            if ctx.rng.random() < 0.3:
+                cols = cols[::-1]
+            cols += [(f, [ctx.rng.randint(0, 99) for _ in range(n)]) for f in extra]
+            cs.append({"s": s, "e": end, "len": n, "kind": 1, "run": 7, "dt": dts[j], "cols": cols})
+        u = ctx.rng.random()
+        if u < 0.08:
+            cs[-1]["kind"] = 2
+        elif u < 0.16:
+            cs[-1]["run"] = 8
+        elif u < 0.24 and n > 0:
+            cs[-1]["len"] = n - 1
+            cs[-1]["cols"] = [(f, col[:-1]) for f, col in cs[-1]["cols"]]
+        elif u < 0.32:
+            cs[-1]["e"] = end + 1
+        cases.append((99, cs))
+    lines = ["merge %d %d %s" % (newdt, len(cs), " ".join(enc_kchunk(k) for k in cs)) for newdt, cs in cases]
+
+    def impl_fn(case, idx):
+        newdt, cs = case
+
+        def f():
+            m = strax.Chunk.merge([real_kchunk(k) for k in cs], data_type="dt%03d" % newdt)
+            inv = {"time": 1, "endtime": 2}
+            cols = ["%d:%s" % (inv.get(nm, int(nm[1:]) if nm[0] == "f" else -1), ",".join(str(int(v)) for v in m.data[nm]))
+                    for nm in m.data.dtype.names]
+            return "ok %d %d %s" % (m.start, m.end, ";".join(cols))
+        return guarded(f)
+
+    def spec_fn(case, out):
+        newdt, cs = case
+        valid = all(len({k[key] for k in cs}) == 1 for key in ("kind", "run", "len", "s", "e"))
+        if out.startswith("err"):
+            return "merge rejected equal-kind, equal-run, equal-length, equal-range inputs: " + out if valid else None
+        if not valid:
+            return "merge accepted mismatched inputs"
+        got = {}
+        for part in out.split(" ", 3)[3].split(";") if len(out.split(" ", 3)) > 3 and out.split(" ", 3)[3] else []:
+            f, col = part.split(":")
+            if int(f) in got:
+                return "duplicate column in merged chunk"
+            got[int(f)] = [int(v) for v in col.split(",")] if col else []
+        want = {}
+        for k in cs:                       # later inputs win on collisions
+            for f, col in k["cols"]:
+                want[f] = list(col)
+        if got != want:
+            return "merged columns are not the union with the last input winning"
+        return None
+
+    diff_unit(ctx, "merge", cases, lines, impl_fn, spec_fn, lambda c, o: c[1][0]["len"] >= 1,
+              lambda c: {"new_dtype": c[0], "chunks": c[1]}, lambda c, o: o.split()[0] + (" " + o.split()[1] if o.startswith("err") else ""))
+
+
+UNITS = {"merge": unit_merge, "split_array": unit_split_array, "chunk_split": unit_chunk_split, "concatenate": unit_concat,
          "rechunk": unit_rechunk, "mk_chunk": unit_mk_chunk, "continuity_check": unit_continuity}
 
 
